@@ -19,6 +19,18 @@ Definition loader_of (sh : loader_shape) : option loader :=
 (** the StateDB sees the stored sequence of every account, whatever its auth type *)
 Definition loader_faithful (l : loader) : Prop := forall k q, l k q = q.
 
+(** what ApplyEvmMsg does to the sender's nonce before the EVM runs *)
+Inductive pre_shape :=
+| PreResetAlways           (* SetNonce(From(), Nonce()) on every path *)
+| PreResetCreateSuccCall   (* To()==nil: SetNonce(From(), Nonce()); otherwise SetNonce(From(), Nonce()+1) *)
+| PreUnknown.
+
+Definition pre_of (sh : pre_shape) : option prefn :=
+  match sh with PreResetAlways => Some pre_reset_always | PreResetCreateSuccCall => Some pre_std | PreUnknown => None end.
+
+(** a contract creation runs with the nonce of its transaction, whatever the account sequence is by then *)
+Definition pre_create_resets (p : prefn) : Prop := forall cur n, p true cur n = n.
+
 Record facts := {
   f_loader : loader_shape;
   f_inc_check : inc_cmp;
@@ -29,7 +41,7 @@ Record facts := {
   f_sig_rejects_on_error : bool;
   f_sig_sets_from : bool;
   f_msg_london_signer_of_this_chain : bool;
-  f_bracket_before : bool;
+  f_pre : pre_shape;
   f_bracket_after : bool;
   f_event_create_address_from_nonce : bool
 }.
@@ -39,7 +51,7 @@ Definition facts_ok (f : facts) : bool :=
   match f_inc_check f with CmpNeqRejects => true | _ => false end &&
   f_inc_reads_account_sequence f && f_inc_sets_plus_one f &&
   (f_sig_signer_of_this_chain f || f_cantransfer_signer_of_this_chain f) && f_sig_rejects_on_error f && f_sig_sets_from f &&
-  f_msg_london_signer_of_this_chain f && f_bracket_before f && f_bracket_after f &&
+  f_msg_london_signer_of_this_chain f && match f_pre f with PreUnknown => false | _ => true end && f_bracket_after f &&
   f_event_create_address_from_nonce f.
 
 (** the part of a decorator chain the nonce path depends on *)
